@@ -142,9 +142,15 @@ def _mesh(name, rng):
 
 def make_pair(api, nameA, nameB, rng):
     VA, EA, DA = _mesh(nameA, rng)
-    VB, EB, DB = _mesh(nameB, rng)
     VA, _, _ = mg.rigid(VA, rng)
-    VB, _, _ = mg.rigid(VB, rng)
+    if nameB == "=copy":
+        # the second grid is a TRANSLATED COPY of the first (multiple-scattering set-up): identical element arrays and
+        # element shapes on two distinct Grid objects (seeded change C07-c: a structural Grid.__eq__ made such a pair
+        # "the same grid" for the assemblers)
+        VB, EB, DB = VA.copy(), EA.copy(), (None if DA is None else DA.copy())
+    else:
+        VB, EB, DB = _mesh(nameB, rng)
+        VB, _, _ = mg.rigid(VB, rng)
     VA = VA - VA.mean(axis=1)[:, None]
     VB = VB - VB.mean(axis=1)[:, None]
     _, ra, rb = _bbox_gap(VA, VB)
@@ -250,6 +256,8 @@ def _run(ctx, api, DefaultParameters, res, rng, deep):
         chosen = [rng.choice([n for n in names if n.endswith("-sl")]), rng.choice([n for n in names if n.endswith("-dl")])]
         sp = [("p0", "p1"), ("p1", "p0"), ("p1", "p1")]
         per_family_pairs = {n: [rng.choice(sp)] for n in chosen}
+    # every run also takes one mesh together with a translated copy of itself (same connectivity, two Grid objects)
+    pairs = pairs + [(pairs[0][0], "=copy")]
     maxwell_parts = ["M", "E"] if thorough else [rng.choice(["M", "M", "E"])]
     if not thorough and "M" not in maxwell_parts and rng.random() < 0.5:
         maxwell_parts.append("M")
@@ -270,7 +278,8 @@ def _run(ctx, api, DefaultParameters, res, rng, deep):
     for pi, (nA, nB) in enumerate(pairs):
         gA, gB, info = make_pair(api, nA, nB, rng)
         ctx.log(f"pair {info}")
-        nontrivial = info["nA"] != info["nB"]
+        nontrivial = info["nA"] != info["nB"] or nB == "=copy"
+        orders_here = orders if nB != "=copy" else [3, 4]
         spaces_A, spaces_B = {}, {}
 
         def space(grid, cache, kind, deg, **kw):
@@ -304,7 +313,7 @@ def _run(ctx, api, DefaultParameters, res, rng, deep):
                             if thorough:
                                 arglist.append(("imag-k", (complex(0.0, rng.uniform(0.3, 2.0)),)))
                         for tag, args in arglist:
-                            for order in orders:
+                            for order in orders_here:
                                 p = DefaultParameters()
                                 p.quadrature.regular = order
                                 cinfo = dict(info, family=name, test=f"{tk[0]}{tk[1]}", trial=f"{rk[0]}{rk[1]}",
